@@ -56,6 +56,7 @@ type Violation struct {
 	// NoNativeReplay: the violation is "a nondeterministic source is reachable"; a native run cannot fail on it,
 	// the tape reproduces the path that reaches the source.
 	NoNativeReplay bool
+	Case           int
 }
 
 type TapeEntry struct {
@@ -82,6 +83,7 @@ type JobResult struct {
 	Inconclusive []string
 	Reached      map[string]bool
 	Witness      map[string][]TapeEntry
+	WitnessCase  map[string]int
 	Funcs        map[string]bool
 	UnwindMax    int
 	Samples      []string
@@ -580,7 +582,7 @@ func (it *Interp) recordViolation(label, kind, msg, known string) {
 	if err != nil {
 		it.jr.Inconclusive = append(it.jr.Inconclusive, "model extraction: "+err.Error())
 	}
-	v := &Violation{Harness: it.jr.Harness, Label: label, Kind: kind, Msg: msg, Tape: tape, Known: known, Path: it.pathBools()}
+	v := &Violation{Harness: it.jr.Harness, Label: label, Kind: kind, Msg: msg, Tape: tape, Known: known, Path: it.pathBools(), Case: it.caseN}
 	if known != "" {
 		if it.jr.KnownHits == nil {
 			it.jr.KnownHits = map[string]*Violation{}
@@ -618,6 +620,10 @@ func (it *Interp) Reach(label string, c *smt.Term) {
 	if err == nil {
 		it.jr.Reached[label] = true
 		it.jr.Witness[label] = tape
+		if it.jr.WitnessCase == nil {
+			it.jr.WitnessCase = map[string]int{}
+		}
+		it.jr.WitnessCase[label] = it.caseN
 	} else {
 		it.jr.Inconclusive = append(it.jr.Inconclusive, "reach "+label+": model extraction: "+err.Error())
 	}
@@ -717,6 +723,10 @@ func (jr *JobResult) merge(o *JobResult) {
 		jr.Reached[k] = true
 		if _, ok := jr.Witness[k]; !ok {
 			jr.Witness[k] = o.Witness[k]
+			if jr.WitnessCase == nil {
+				jr.WitnessCase = map[string]int{}
+			}
+			jr.WitnessCase[k] = o.WitnessCase[k]
 		}
 	}
 	for k := range o.Funcs {
